@@ -21,6 +21,7 @@ ASSUMPTIONS = [
     "objective faithful within 1e-6; L2 tolerances 1e-7 (feasibility) / 1e-6 (values)",
     "exact optimum by DP over demand vectors (<= 60000 states); above the guard certificate_only",
 ]
+QUICK_SCALE = 1.5  # quick-tier multiplier (idle 16-core timing: ~10 s at scale 1)
 STRATA = [
     ("cs-random", 500, 6000),
     ("cs-halves", 400, 5000),
